@@ -621,6 +621,11 @@ func (tdsChan *Channel) WritePacket(packet *Packet) {
 			if tdsChan.queueRx.IsEOM() {
 				// And queue is EOM - reset queue
 				tdsChan.queueRx.Reset()
+				// A final DonePackage only terminates the response it
+				// was received in, forget it for the next response.
+				if done, ok := tdsChan.lastPkgRx.(*DonePackage); ok && done.Status == TDS_DONE_FINAL {
+					tdsChan.lastPkgRx = nil
+				}
 			} else {
 				// Roll back position and return.
 				tdsChan.queueRx.SetPosition(curPacket, curData)
